@@ -40,10 +40,14 @@ def makeProtocol (steps : List PStep) : Protocol :=
   let cols := columns [] (rows.map (·.2))
   rows.map fun r => (r.1, rowDict cols r.2)
 
-/-- every step names the same parameters in the same order (the documented use) -/
+def nodupNames : List Name → Bool
+  | [] => true
+  | k :: rest => !rest.contains k && nodupNames rest
+
+/-- every step names the same (distinct) parameters in the same order (the documented use) -/
 def uniform : List PStep → Bool
   | [] => true
-  | (_, p) :: rest => rest.all fun s => s.2.map (·.1) == p.map (·.1)
+  | (_, p) :: rest => nodupNames (p.map (·.1)) && rest.all fun s => s.2.map (·.1) == p.map (·.1)
 
 /-! ### `simulate_protocol` -/
 
